@@ -90,6 +90,7 @@ def build(ch, client=None, max_frames=14, big_frames=False):
         sc.prefix.append(('update_settings', ({wire.S_INITIAL_WINDOW_SIZE: ch.pick([30000, 1000, 100000, 100, 40])},), {}))
         sc.labels.add('local-initial-window-size-changed')
     conn_win = 65535
+    ghost = None
     streams = {}      # sid -> dict(state, win)
     if sc.client:
         n = ch.int(1, 4)
@@ -99,6 +100,14 @@ def build(ch, client=None, max_frames=14, big_frames=False):
             sc.prefix.append(('send_headers', (sid, POST if not end else REQ), {'end_stream': end}))
             streams[sid] = {'state': 'await-response', 'win': 65535}
         next_push = 2
+        if ch.chance(48):
+            # one more request that never leaves: the call is refused (no :path, or text that cannot be encoded),
+            # so its stream id stays unused - whatever the peer later sends on that id meets an idle stream
+            ghost = 1 + 2 * n
+            bad = ch.pick([[(b':method', b'GET'), (b':scheme', b'https'), (b':authority', b'a')],
+                           REQ + [('x-bad-text', 'v\udcff')]])
+            sc.prefix.append(('send_headers', (ghost, bad), {}, 'refused'))
+            sc.labels.add('refused-open-in-prefix')
     else:
         next_sid = 1
     nframes = ch.int(2, max_frames)
@@ -232,6 +241,12 @@ def build(ch, client=None, max_frames=14, big_frames=False):
         elif op == 'tablesize':
             # dynamic table size update at the start of the next block is legal (<= 4096)
             pass
+    if ghost is not None and ch.chance(128):
+        # the conversation ends with a frame on the id of the request that never left (a promise, a response, DATA)
+        fr.append(ch.pick([b''.join(_hdr_frames(ch, ghost, enc.encode(REQ + [(b'x-pushed', b'1')]), promised=next_push)),
+                           b''.join(_hdr_frames(ch, ghost, enc.encode([(b':status', b'200')]), False)),
+                           wire.data(ghost, b'ghost'), wire.rst_stream(ghost, 8), wire.window_update(ghost, 5)]))
+        sc.labels.add('frame-on-refused-open')
     if ch.chance(24):
         fr.append(wire.goaway(ch.int(0, 9), ch.pick([0, 1, 11]), ch.bytes(ch.int(0, 4))))
         sc.labels.add('goaway')
